@@ -138,6 +138,13 @@ def catalogue():
             add(f"SemiCylinder(radius vector lean) size {size}", lean, exp, lambda rp=rp, top=top: cb.SemiCylinder([0, 0, 0], top, rp))
             add(f"Frustum(radius vector lean) size {size}", lean, exp, lambda rp=rp, top=top, size=size: cb.Frustum([0, 0, 0], top, rp, 0.4 * size))
             add(f"ExtrudedRing(radius vector lean) size {size}", lean, exp, lambda rp=rp, top=top, size=size: cb.ExtrudedRing([0, 0, 0], top, rp, 0.3 * size))
+    for size in (1e-2, 1.0, 2e3):
+        for lift, exp in ((0.0, "in"), (0.05, "out"), (-0.05, "out")):
+            # a tilted plane in general position (so that round-off is realistic at large sizes)
+            e1, e2, e3 = np.array([2.0, 1.0, 2.0]) / 3, np.array([-2.0, 2.0, 1.0]) / 3, np.array([1.0, 2.0, -2.0]) / 3
+            pts = [size * (a * e1 + b * e2) + np.array([0.3, -1.1, 2.2]) * size for a, b in ((0, 0), (1, 0), (1, 1), (0, 1))]
+            pts[2] = pts[2] + lift * size * e3
+            add(f"Face(check_coplanar) size {size}", lift, exp, lambda pts=pts: cb.Face(pts, check_coplanar=True))
     for c, exp in ((-4, "out"), (-1, "out"), (0, "in"), (3, "in"), (4, "out")):
 
         def rm(c=c):
